@@ -289,34 +289,17 @@ def opssize(run, fx):
                     if x['k'] == 'MemberExpr' and x.get('d') == fld:
                         writers.append((fn, e, 'assignment'))
                         break
-    ok_cpy = ok_set = None
-    bad = None
-    for fn, e, kind in writers:
-        if kind == 'memset' and fn.q == 'graphite2::Face::Face' and fn.strip_all_casts(e['args'][1]).get('v') == 0:
-            ok_set = (fn, e)
-        elif kind in ('memcpy', 'memmove') and fn.q == 'graphite2::Face::Face':
-            sz = fn.deref(e['args'][2])
-            inner = [fn.strip_all_casts(a) for a in (sz.get('args') or [])] if sz['k'] == 'CallExpr' and (sz.get('fq') or '').split('<')[0].endswith('::min') else []
-            has_size = any(fn.deref(a)['k'] == 'MemberExpr' and fn.deref(a).get('d', '').endswith('gr_face_ops::size') for a in inner)
-            has_sizeof = any(a.get('v') is not None or fn.deref(a).get('v') is not None for a in inner)
-            if has_size and has_sizeof:
-                ok_cpy = (fn, e)
-            elif _handwritten_min(fn, e, e['args'][2]):
-                ok_cpy = (fn, e)
-            else:
-                bad = bad or (fn, e, 'copies `%s` bytes, not min(sizeof m_ops, ops.size)' % fn.render(e['args'][2]))
-        else:
-            bad = bad or (fn, e, 'is a whole-struct %s' % kind)
-    if bad:
-        fn, e, why = bad
-        run.violated('OPTFLOW', 'face ops copy', fn.loc(e), '%s writes the face\'s table callbacks and %s: members the client did not provide (ops.size says how many it did) are '
-                     'read from whatever follows its struct, so release_table of a callback face is garbage where the file face has a real one' % (fn.q, why))
-    elif ok_cpy and ok_set and ok_set[0].pos_of[ok_set[1]['i']] < ok_cpy[0].pos_of[ok_cpy[1]['i']] and ok_set[0].block_of[ok_set[1]['i']] == ok_cpy[0].block_of[ok_cpy[1]['i']]:
-        run.held('OPTFLOW', 'face ops copy', ok_cpy[0].loc(ok_cpy[1]), 'zeroed, then min(sizeof m_ops, ops.size) bytes copied; no other writer')
-    elif ok_cpy and ok_set and ok_set[0].block_of[ok_set[1]['i']] in ok_cpy[0].dominators()[ok_cpy[0].block_of[ok_cpy[1]['i']]]:
-        run.held('OPTFLOW', 'face ops copy', ok_cpy[0].loc(ok_cpy[1]), 'zeroed, then min(sizeof m_ops, ops.size) bytes copied; no other writer')
-    elif ok_cpy:
-        run.violated('OPTFLOW', 'face ops copy', ok_cpy[0].loc(ok_cpy[1]), 'Face::Face no longer zeroes m_ops before the size-limited copy: members beyond ops.size are indeterminate')
+    # who writes m_ops is a structural question (the constructor alone); WHAT the constructor leaves there for a caller structure of any
+    # size is decided by interpreting it (c16.opscopy_exec: prefix semantics of memset / memcpy / a whole-struct initialiser), not by the
+    # spelling of the size expression
+    outside = [(fn, e, kind) for fn, e, kind in writers if fn.q != 'graphite2::Face::Face']
+    if outside:
+        fn, e, kind = outside[0]
+        run.violated('OPTFLOW', 'face ops copy', fn.loc(e), '%s writes the face\'s table callbacks (%s) outside the constructor that takes the caller\'s gr_face_ops: the size the client declared '
+                     'is no longer what decides which members the face has' % (fn.q, kind))
+    elif writers:
+        from . import c16 as c16_
+        c16_.opscopy_exec(run, fx, 'OPTFLOW')
     else:
         run.broken('OPTFLOW', 'face ops copy', 'no writer of Face::m_ops found', '')
 
